@@ -4295,6 +4295,8 @@ class ParseCtx:
         # Parse state_object_spec
         for out in self._parse_tree.find_data("out_decl"):
             out_obj = self._parse_out_decl(out)
+            if out_obj.holds_a(OutputStorageType.STR) and out_obj.default_value is not None and len(out_obj.default_value) > out_obj.effective_string_size():
+                raise IllegalParseTree("Default value is too long for output", out)
             if out_obj.name in self.state_object_spec:
                 raise DuplicateDefinitionError("output variable", out, out_obj.name)
             if out_obj.holds_a(OutputStorageType.ENUM):
